@@ -473,12 +473,25 @@ func PromoteOptionsToConstructor(selector Selector, optionNames []string) Rewrit
 					continue
 				}
 
+				if len(opt.Args) == 0 || len(opt.Assignments) == 0 {
+					continue
+				}
+
 				// TODO: do it for every argument/assignment?
 				arg := opt.Args[0].DeepCopy()
 				arg.Type.Nullable = false
 
+				// the constructor gets its own copy of the assignment, fed by its
+				// own argument: sharing the option's would let later option rules
+				// (rename_arguments, ...) rewrite the constructor by accident.
+				assignment := opt.Assignments[0].DeepCopy()
+				if assignment.Value.Argument != nil && assignment.Value.Argument.Name == arg.Name {
+					constructorArg := arg.DeepCopy()
+					assignment.Value.Argument = &constructorArg
+				}
+
 				builders[i].Constructor.Args = append(builders[i].Constructor.Args, arg)
-				builders[i].Constructor.Assignments = append(builders[i].Constructor.Assignments, opt.Assignments[0])
+				builders[i].Constructor.Assignments = append(builders[i].Constructor.Assignments, assignment)
 
 				builders[i].AddToVeneerTrail(fmt.Sprintf("PromoteOptionsToConstructor[%s]", optName))
 			}
